@@ -217,3 +217,38 @@ def gen_asm_line(rng, memtxt=None):
     if y < 0.85:
         return '%s %s, %s' % (m, rng.choice(ASM_MEMTXT_), rng.choice(ASM_IMMTXT))
     return '%s %s, %s' % (m, rng.choice(ASM_REGTXT), rng.choice(ASM_REGTXT + ASM_IMMTXT))
+
+# AT&T: mnemonic x operand-text pools (different mnemonics meet the same operand text), prefix-only lines
+ATT_MNEMO1 = ['call', 'jmp', 'jne', 'jg', 'pushl', 'pushw', 'popl', 'incl', 'decl', 'notl', 'negl', 'incb', 'flds', 'fildl', 'push', 'pop', 'inc']
+ATT_MNEMO2 = ['movl', 'leal', 'addl', 'cmpl', 'xorl', 'testl', 'movb', 'movw', 'movzbl', 'mov', 'add']
+ATT_OPTXT = ['4660', 'counter', 'table', '$2', '$4660', '4(%ebx)', '(%eax)', '8(%ebp)', '(%ebx,%ecx,4)', '%gs:20', '.LC0', '$.LC0', '16(%esp,%eax,4)', '%eax', '%cx', '%al']
+ATT_REGTXT = ['%eax', '%ecx', '%edx', '%ax', '%al', '%cl']
+ATT_PREFIX_ONLY = ['rep', 'repz', 'repnz', 'lock', 'notrack']
+
+def gen_att_line(rng, optxt=None):
+    ops = optxt or ATT_OPTXT
+    k = rng.random()
+    if k < 0.08:
+        return rng.choice(ATT_PREFIX_ONLY)
+    if k < 0.55:
+        return '%s %s' % (rng.choice(ATT_MNEMO1), rng.choice(ops))
+    m = rng.choice(ATT_MNEMO2)
+    if rng.random() < 0.6:
+        return '%s %s, %s' % (m, rng.choice(ops), rng.choice(ATT_REGTXT))
+    return '%s %s, %s' % (m, rng.choice(ATT_REGTXT), rng.choice(ops))
+
+# families of related encodings (same mnemonic in other widths / forms): they share table rows, caches and
+# rendering paths, so drawing several members of one family into a run makes collisions frequent
+BYTES_FAMILIES = [
+    ['0fb6c3', '0fb7c3', '0fb64301', '0fb74302', '0fbec3', '0fbfc3', '0fbe4301', '0fbf4302', '660fb6c3', '0fb60b', '0fb70b'],
+    ['a4', 'a5', '66a5', 'aa', 'ab', '66ab', 'ac', 'ad', '66ad', 'ae', 'af', '66af', 'a6', 'a7', 'f3a4', 'f3a5', 'f3a7', 'f2ae'],
+    ['d8e2', 'dcea', 'd8c1', 'dcc1', 'd8f1', 'dcf9', 'd8e9', 'dce1', 'dee9', 'dee1', 'def9', 'def1', 'd8ca', 'dcca'],
+    ['c70301000000', '8903', '8b03', 'c6430501', '8803', '8a03', '668903', '668b03', '8d03', '0f1803', '8d00', '8b00', '268a01', '8b01', '2e8a04'],
+    ['e800010000', '67e80001', '0f8410000000', '670f841000', '66e80001', 'e900010000', '67e90001', '7410', '0f8510000000'],
+    ['50', '6650', '58', '6658', '6a02', '666a02', '6802000000', '66680200', 'ff30', '66ff30', '8f00', '668f00', '06', '6606'],
+    ['89d8', '88d8', '6689d8', '8bc3', '8ac3', '668bc3', '89c3', '88c3', '8ec0', '8cc0', '0f20c0', '0f22c0'],
+    ['0f6fc1', '660f6fc1', 'f30f6fc1', '0f7fc1', '660f7fc1', '0f10c1', '660f10c1', 'f30f10c1', 'f20f10c1', '0f28c1', '660f28c1'],
+]
+def gen_family_pool(rng, n=4):
+    fam = rng.choice(BYTES_FAMILIES)
+    return [rng.choice(fam) for _ in range(n)]
